@@ -424,6 +424,9 @@ class Ctx:
             return e[1]
         if e[0] == "paren":
             return self.int(e[1])
+        if e[0] == "call" and canon(e[1]) in ("legal_ld", "blas::legal_ld") and len(e[2]) == 2:
+            # core.hpp: legal_ld(stride, rows) = the larger of the two (a leading dimension BLAS accepts)
+            return f"legalLd ({self.int(e[2][0])}) ({self.int(e[2][1])})"
         r = self.lookup(e)
         if isinstance(r, tuple):
             raise TranslateError(f"{self.fname}: {canon(e)} is not an integer quantity")
@@ -992,6 +995,25 @@ def main():
     v = vec_vocab("first", "x"); v["n"] = "n"
     one("asum_n", "asum.hpp", r"auto\s+asum_n\s*\(", "asum_n", v, BN1, "n x", "reads the strided vector", CBN1)
     one("iamax_n", "iamax.hpp", r"auto\s+iamax_n\s*\(", "iamax_n", v, BN1, "n x", "reads the strided vector", CBN1)
+
+    # ---------------------------------------------------------------- two front-end facts read by pattern
+    core = read("core.hpp")
+    if "legal_ld" in "".join(em.out) and not re.search(r"constexpr\s+auto\s+legal_ld\s*\(\s*Stride\s+stride\s*,\s*Size\s+rows\s*\)\s*->\s*Stride\s*\{\s*return\s+stride\s*<\s*static_cast<Stride>\(rows\)\s*\?\s*static_cast<Stride>\(rows\)\s*:\s*stride\s*;\s*\}", core):
+        raise TranslateError("core.hpp: legal_ld is used but its definition is not `stride < rows ? rows : stride`")
+    sites = [m.start() for m in re.finditer(r"BLAS\((?:s|c|z)gemv\)\('N', 1, n,", core)]
+    if not sites:
+        raise TranslateError("core.hpp: the xGEMV calls that implement dot/dotu were not found")
+    guarded = [bool(re.search(r"if\s*\(\s*n\s*==\s*0\s*\)\s*\{\s*\*rp\s*=\s*R\{\}\s*;\s*return\s*;\s*\}\s*$", core[:i].rstrip())) for i in sites]
+    dot_guard = all(guarded)
+    gsrc = read("gemm.hpp")
+    fs = list(functions(gsrc, r"auto\s+gemm\s*\(\s*ContextPtr\s+ctxtp\s*,\s*Scalar\s+s\s*,\s*A2D\s+const&\s*a\s*,\s*B2D\s+const&\s*b\s*\)"))
+    if len(fs) != 1:
+        raise TranslateError(f"gemm(ctxtp, s, a, b): expected one definition, found {len(fs)}")
+    range_checks = bool(re.search(r"if\s*\(\s*!\s*a\.is_empty\(\)\s*\)\s*\{\s*assert\(\s*size\(~a\)\s*==\s*size\(\s*b\s*\)\s*\)\s*;\s*\}", fs[0][2]))
+    em.out.append("/-- core.hpp: every xGEMV call that implements `dot` (float) / `dotu` (complex) is preceded by `if(n == 0) {*rp = R{}; return;}` -/\n"
+                  f"def coreDotGemvGuardsEmpty : Bool := {'true' if dot_guard else 'false'}\n")
+    em.out.append("/-- gemm.hpp: the lazy `gemm(ctxtp, s, a, b)` asserts `size(~a) == size(b)` for a non-empty `a` -/\n"
+                  f"def gemmRangeChecksInner : Bool := {'true' if range_checks else 'false'}\n")
 
     text = ("/-\n  GENERATED by tools/gen_blas_dispatch.py from include/boost/multi/adaptors/blas/*.hpp — do not edit.\n"
             "  Regenerated on every run of `./check C13`; the committed copy is the translation of the pinned /repo tree.\n\n"
